@@ -1887,6 +1887,16 @@ class Engine:
                 res = 'unknown'
                 self.solver.check(st.pc)
                 break
+        nx = self.opts.get('export_queries', 0)
+        if nx and res in ('sat', 'unsat') and not excl and not r.get('known'):
+            ex = self.cur_result.setdefault('exports', [])
+            if len(ex) < nx and sum(1 for e in ex if e['label'] == label) < 2:
+                try:
+                    txt = self.solver.export(st.pc + (st.defs if r.get('refined') else []), neg)
+                    if len(txt) < 400000:
+                        ex.append({'label': label, 'result': res, 'smt2': txt})
+                except Exception:
+                    pass
         if res == 'sat':
             m = self.solver.model()
             self.solver.done()
